@@ -115,6 +115,9 @@ def _common_rules(pid: str, ctx: 'Ctx', ck: Checker) -> None:
         ck.ok('ARGSEL', f'{len(files)} anchor files', f'{examined} call sites to in-package callees with >= 2 positional arguments: no argument is passed in another parameter\'s position', instance='argument selection', nontrivial=examined > 0)
 
 
+CONTROL_EXPECT: str | None = None  # while a positive control runs: the rule it must trigger (expensive unrelated rules may skip)
+
+
 def _run_controls(pid: str, world: World, mod) -> tuple[int, list[str]]:
     from .normalise import normalise
 
@@ -139,7 +142,12 @@ def _run_controls(pid: str, world: World, mod) -> tuple[int, list[str]]:
             # an ad-hoc editing function of a control did not find the statement it rewrites
             skipped.append(f'control {c.name}: cannot build variant: {type(exc).__name__} {exc}')
             continue
-        ck = run_property(pid, variant)
+        global CONTROL_EXPECT
+        CONTROL_EXPECT = c.expect
+        try:
+            ck = run_property(pid, variant)
+        finally:
+            CONTROL_EXPECT = None
         keys = [o.key for o in ck.violations()]
         if not any(c.expect in k for k in keys):
             failures.append(f'control {c.name}: expected a violation matching {c.expect!r}, got {keys[:4]}')
